@@ -67,6 +67,11 @@ func Farm() *TLSFarm {
 		// a bundle file holding two CAs, and an unparsable file
 		os.WriteFile(filepath.Join(d, "bundleAB.crt"), append(PEMCert(f.cas["caA"].Raw), PEMCert(f.cas["caB"].Raw)...), 0o644)
 		os.WriteFile(filepath.Join(d, "bundleAA2.crt"), append(PEMCert(f.cas["caA"].Raw), PEMCert(f.cas["caA2"].Raw)...), 0o644)
+		// CA files whose NAMES contain pattern metacharacters, blanks or non-ASCII letters, next to the files
+		// such patterns would match (caA.crt, caB.crt, caForeign.crt ... in the same directory)
+		for name, ca := range OddCAFiles {
+			os.WriteFile(filepath.Join(d, name), PEMCert(f.cas[ca].Raw), 0o644)
+		}
 		// client certificate (issued by caClients)
 		_, der, err := MakeCert(CertSpec{CN: "verif ysshra client", Key: "p256b", Issuer: f.cas["caClients"], IssuerKey: caKeys["caClients"], Serial: 21,
 			Mutate: func(t *x509.Certificate) { t.ExtKeyUsage = []x509.ExtKeyUsage{x509.ExtKeyUsageClientAuth} }})
@@ -101,8 +106,16 @@ func Farm() *TLSFarm {
 	return farm
 }
 
+// OddCAFiles: oddly named CA files of the farm directory and the one CA each holds.
+var OddCAFiles = map[string]string{"ca[AB].crt": "caA", "ca?.crt": "caB", "ca*.crt": "caA", "my ca (B) é.crt": "caB", "{caA,caForeign}.crt": "caA", "ca\\B.crt": "caB"}
+
 // CAFile returns the path of a CA certificate file (caA, caB, caForeign, bundleAB).
-func (f *TLSFarm) CAFile(name string) string { return filepath.Join(f.Dir, name+".crt") }
+func (f *TLSFarm) CAFile(name string) string {
+	if _, odd := OddCAFiles[name]; odd {
+		return filepath.Join(f.Dir, name)
+	}
+	return filepath.Join(f.Dir, name+".crt")
+}
 
 // ClientCertFile / ClientKeyFile are the RA's client credentials.
 func (f *TLSFarm) ClientCertFile() string { return filepath.Join(f.Dir, "client.crt") }
